@@ -5,7 +5,9 @@
   Fragment: 64-bit `int` variables; expressions + - * & | ^ / % (run-time panic on a zero
   divisor), unary - and ^; conditions built from the six comparisons with !, && and ||
   (short-circuit); statements: assignment/definition, fmt.Println of one int, if/else,
-  `for cond { }`, `for init; cond; post { }`, break, continue, blocks.
+  `for cond { }`, `for init; cond; post { }`, break, continue, switch (tag or conditions, default last,
+  fallthrough), blocks; declared functions of int parameters returning one int, called in the form
+  `x = f(args…)` (arguments copied, recursion allowed), `return e`.
   Output is the list of printed values; a run ends normally or with a run-time panic.
 -/
 namespace YaegiVerif.Core
@@ -43,6 +45,8 @@ mutual
     | brk
     | cont
     | switch (cs : Clauses)                   -- switch { case c1: … ; case c2: … ; default: … }
+    | ret (e : Expr)                          -- return e
+    | call (x : Nat) (g : Nat) (args : List Expr)   -- x = f_g(args…)
   /-- clauses in source order; `switch tag { case v: }` is `case tag == v`, a (last) `default` is a
       clause whose condition is constant true; `fall` = the clause body ends in `fallthrough` -/
   inductive Clauses where
@@ -100,17 +104,48 @@ def BExpr.eval (s : St) : BExpr → Option Bool
     | none => none
 
 /-- how a statement ends -/
-inductive Sig where | normal | brk | cont | panic
+inductive Sig where | normal | brk | cont | panic | ret (v : Val)
   deriving Repr, DecidableEq
+
+/-- the declared functions: body of function `g` (its parameters are its variables 0 … n-1);
+    all functions return one int -/
+abbrev Funs := List Stmt
+
+/-- the callee's fresh frame: parameters bound to the argument values, every other variable zero -/
+def bindArgs (vals : List Val) : Nat → Val := fun i => (vals[i]?).getD 0
+
+/-- body of function `g` -/
+def lookupFn : Funs → Nat → Option Stmt
+  | [], _ => none
+  | b :: _, 0 => some b
+  | _ :: bs, g + 1 => lookupFn bs g
+
+/-- the callee starts in a fresh frame; the output stream is shared -/
+def calleeSt (s : St) (vals : List Val) : St := { vars := bindArgs vals, out := s.out }
+
+/-- what the caller `x = f(…)` does with the way the callee's body ended -/
+def callResult (s : St) (x : Nat) : Option (Sig × St) → Option (Sig × St)
+  | none => none
+  | some (.ret v, s1) => some (.normal, { vars := (s.set x v).vars, out := s1.out })
+  | some (.panic, s1) => some (.panic, s1)      -- the panic unwinds through the caller
+  | some (_, s1) => some (.normal, { vars := (s.set x 0).vars, out := s1.out })   -- fell off the end: not valid Go
+
+/-- left-to-right evaluation of call arguments; `none` = one of them panics -/
+def evalArgs (s : St) : List Expr → Option (List Val)
+  | [] => some []
+  | e :: es =>
+    match e.eval s, evalArgs s es with
+    | some v, some vs => some (v :: vs)
+    | _, _ => none
 
 mutual
 /-- big-step execution; `none` = fuel exhausted -/
-def exec : Nat → Stmt → St → Option (Sig × St)
+def exec (fs : Funs) : Nat → Stmt → St → Option (Sig × St)
   | 0, _, _ => none
   | _ + 1, .skip, s => some (.normal, s)
   | f + 1, .seq a b, s =>
-    match exec f a s with
-    | some (.normal, s1) => exec f b s1
+    match exec fs f a s with
+    | some (.normal, s1) => exec fs f b s1
     | r => r
   | _ + 1, .assign x e, s =>
     match e.eval s with
@@ -122,51 +157,63 @@ def exec : Nat → Stmt → St → Option (Sig × St)
     | none => some (.panic, s)
   | f + 1, .ite c t e, s =>
     match c.eval s with
-    | some true => exec f t s
-    | some false => exec f e s
+    | some true => exec fs f t s
+    | some false => exec fs f e s
     | none => some (.panic, s)
   | f + 1, .loop c body post, s =>
     match c.eval s with
     | none => some (.panic, s)
     | some false => some (.normal, s)
     | some true =>
-      match exec f body s with
+      match exec fs f body s with
       | some (.brk, s1) => some (.normal, s1)
       | some (.panic, s1) => some (.panic, s1)
+      | some (.ret v, s1) => some (.ret v, s1)
       | some (_, s1) =>                      -- normal end of the body, or continue
-        match exec f post s1 with
-        | some (.normal, s2) => exec f (.loop c body post) s2
+        match exec fs f post s1 with
+        | some (.normal, s2) => exec fs f (.loop c body post) s2
         | some (.panic, s2) => some (.panic, s2)
-        | some (_, s2) => some (.panic, s2)   -- break/continue in a post statement: not valid Go
+        | some (_, s2) => some (.panic, s2)   -- break/continue/return in a post statement: not valid Go
         | none => none
       | none => none
   | _ + 1, .brk, s => some (.brk, s)
   | _ + 1, .cont, s => some (.cont, s)
   | f + 1, .switch cs, s =>
-    match execClauses f cs s with
+    match execClauses fs f cs s with
     | some (.brk, s1) => some (.normal, s1)        -- `break` inside a switch leaves the switch
     | r => r
+  | _ + 1, .ret e, s =>
+    match e.eval s with
+    | some v => some (.ret v, s)
+    | none => some (.panic, s)
+  | f + 1, .call x g args, s =>
+    match evalArgs s args with
+    | none => some (.panic, s)
+    | some vals =>
+      match lookupFn fs g with
+      | none => none                            -- call of an undeclared function: not valid Go, no outcome
+      | some body => callResult s x (exec fs f body (calleeSt s vals))
 
 /-- clauses are tested in source order; the first true condition selects its body -/
-def execClauses : Nat → Clauses → St → Option (Sig × St)
+def execClauses (fs : Funs) : Nat → Clauses → St → Option (Sig × St)
   | 0, _, _ => none
   | _ + 1, .nil, s => some (.normal, s)
   | f + 1, .cons c body fall rest, s =>
     match c.eval s with
     | none => some (.panic, s)
-    | some false => execClauses f rest s
+    | some false => execClauses fs f rest s
     | some true =>
-      match exec f body s with
-      | some (.normal, s1) => if fall then execFall f rest s1 else some (.normal, s1)
+      match exec fs f body s with
+      | some (.normal, s1) => if fall then execFall fs f rest s1 else some (.normal, s1)
       | r => r
 
 /-- after `fallthrough`: the next clause's body runs without its test -/
-def execFall : Nat → Clauses → St → Option (Sig × St)
+def execFall (fs : Funs) : Nat → Clauses → St → Option (Sig × St)
   | 0, _, _ => none
   | _ + 1, .nil, s => some (.normal, s)
   | f + 1, .cons _ body fall rest, s =>
-    match exec f body s with
-    | some (.normal, s1) => if fall then execFall f rest s1 else some (.normal, s1)
+    match exec fs f body s with
+    | some (.normal, s1) => if fall then execFall fs f rest s1 else some (.normal, s1)
     | r => r
 end
 
